@@ -60,8 +60,8 @@ claim('C15', 'Hypothesis-generated segments (regular and with coincident end con
       'About 12k (quick) / 300k (thorough) cases: unit_tangent, normal and curvature against exact-rational Bernstein derivatives (closed form for arcs) at regular points; at singular end points the tangent must equal the direction of the first non-vanishing derivative with the sign of the limit from inside, cross-checked against the neighbourhood; tangent and curvature must transform correctly under translation, rotation, +-uniform scaling and reversal.',
       'Trusts: vp/ref/bez_ref.py, vp/ref/arc_ref.py; tolerances in the evidence assumptions; interior cusps excluded.',
       'DESIGN.md 2/C15')
-claim('C16', 'histories as generated data (Hypothesis lists of operations) + exhaustive enumeration of all operation sequences up to depth 3/4; model-based oracle: Python list model for the segment sequence and a freshly built object for every query, in two configurations',
-      'About 11k (quick) / 150k (thorough) histories per run: every mutation through the Path interface is mirrored on a list model, and after every step a battery of queries (len, start, end, continuity, length, point, T2t, bbox, d, ==, hash) must equal the same queries on a new Path of the current segments; length with tolerance arguments must be at least as accurate as a fresh object; segment histories (reassign control points, other tolerances, reversed); equal-by-construction pairs must hash equal; all operation sequences of depth <= 3 over a 24-operation alphabet are enumerated.',
+claim('C16', 'histories as generated data (Hypothesis lists of operations) + enumeration of operation sequences up to depth 3/4; model-based oracle: Python list model for the segment sequence and a freshly built object for every query, in two configurations',
+      'About 11k (quick) / 150k (thorough) histories per run: every mutation through the Path interface is mirrored on a list model, and after every step a battery of queries (len, start, end, continuity, length, point, T2t, bbox, d, ==, hash) must equal the same queries on a new Path of the current segments; length with tolerance arguments must be at least as accurate as a fresh object; segment histories (reassign control points, other tolerances, reversed); equal-by-construction pairs must hash equal; operation sequences over a 24-operation alphabet are enumerated (quick: all of depth <= 2 and a third of depth 3; thorough: all of depth <= 3 and a sixth of depth 4).',
       'Trusts: Python list semantics as the model; Arc end points are not reassigned (not supported by the class); histories are generated as data rather than with RuleBasedStateMachine so that the replay file is the history itself.',
       'DESIGN.md 2/C16')
 claim('C20', 'Hypothesis-generated line/cubic paths built from headings (corner angles 0.5-179 deg, smooth joints, S-type cubics, open/closed) x maxjointsize x tightness; validity predicate on the output (continuity, end points, tangent agreement at every joint, distance to the input, preserved smooth joints)',
